@@ -61,7 +61,9 @@ func newInitType2(args ...px.Value) *InitType {
 
 func (t *InitType) Accept(v px.Visitor, g px.Guard) {
 	v(t)
-	t.typ.Accept(v, g)
+	if t.typ != nil {
+		t.typ.Accept(v, g)
+	}
 }
 
 func (t *InitType) CanSerializeAsString() bool {
